@@ -563,6 +563,9 @@ func (x *Exec) resolveHeapName(env *SpecEnv, spec string) string {
 		if _, ok := x.heapSorts[spec]; !ok && spec == "SSP" {
 			x.heapSorts[spec] = "(Array Int (Array Str Bool))"
 		}
+		if _, ok := x.heapSorts[spec]; !ok && spec == "SSV$math.big.Int" {
+			x.heapSorts[spec] = "(Array Int (Array Str Int))"
+		}
 		return spec
 	}
 	parts := strings.Split(spec, ".")
